@@ -10,7 +10,14 @@ use serde_json::{Value, json};
 use simgc::{NONE, Op, code, mode};
 
 fn gen_ops(rng: &mut Rng, tier: Tier) -> (Vec<Op>, Vec<(u32, u32)>, bool) {
-    let n = match tier {
+    // Small universe (1 history in 5): at most 3 handle slots and 3..8 operations with a collection
+    // injected into nearly every allocating operation: the region the property's quantifier asks to
+    // cover densely, sampled rather than enumerated.
+    let small = rng.chance(1, 5);
+    let n = if small {
+        rng.range(3, 8)
+    } else {
+        match tier {
         Tier::Quick => rng.range(6, 40),
         Tier::Thorough => {
             if rng.chance(1, 40) {
@@ -18,6 +25,7 @@ fn gen_ops(rng: &mut Rng, tier: Tier) -> (Vec<Op>, Vec<(u32, u32)>, bool) {
             } else {
                 rng.range(6, 120)
             }
+        }
         }
     } as usize;
     // swarm: per-run weights
@@ -39,7 +47,8 @@ fn gen_ops(rng: &mut Rng, tier: Tier) -> (Vec<Op>, Vec<(u32, u32)>, bool) {
         w[code::DROP_RESURRECTED as usize] = 0;
     }
     let total: u64 = w.iter().sum();
-    let gc_rate = *rng.pick(&[0u64, 5, 20, 50, 100]);
+    let gc_rate = if small { *rng.pick(&[50u64, 100, 100]) } else { *rng.pick(&[0u64, 5, 20, 50, 100]) };
+    let slots: u64 = if small { 3 } else { 12 };
     let mut ops = vec![];
     let mut gcs = vec![];
     // Motif prefix (1 history in 3): the handle list is known at the start of a history, so a
@@ -49,7 +58,7 @@ fn gen_ops(rng: &mut Rng, tier: Tier) -> (Vec<Op>, Vec<(u32, u32)>, bool) {
     // which needs one fix-point round per link when the creation order is the reverse of the
     // dependency order. Variants: ephemerons held by the simulator, stored in the head key, or
     // entries of a weak map.
-    if rng.chance(1, 3) {
+    if !small && rng.chance(1, 3) {
         let n = rng.range(2, 7) as u32;
         let variant = rng.below(3);
         for _ in 0..=n {
@@ -99,8 +108,8 @@ fn gen_ops(rng: &mut Rng, tier: Tier) -> (Vec<Op>, Vec<(u32, u32)>, bool) {
         }
     }
     let motif_len = ops.len();
-    let slot = |rng: &mut Rng| rng.below(12) as u32;
-    let slot_or_none = |rng: &mut Rng| if rng.chance(1, 2) { NONE } else { rng.below(12) as u32 };
+    let slot = |rng: &mut Rng| rng.below(slots) as u32;
+    let slot_or_none = |rng: &mut Rng| if rng.chance(1, 2) { NONE } else { rng.below(slots) as u32 };
     for i in motif_len..motif_len + n {
         let mut pick = rng.below(total);
         let mut c = 0u8;
@@ -211,7 +220,7 @@ pub const PROP: Prop = Prop {
     generate,
     execute,
     shrink,
-    rule: "one run = one seeded history of 6..40 (quick) / 6..120, occasionally 500..5000 (thorough) operations over boa_gc (alloc with edges, new_cyclic, link/unlink, clone/drop/load handle, weak and ephemeron held by the simulator or stored in a node, weak map new/insert/remove/get/drop, upgrade, read, allocation inside a mutable borrow, finalizer modes incl. resurrection in 1 run of 12, explicit collect) one history in three starts with a structured motif (a chain of 2..7 ephemerons or weak-map entries whose keys are reachable only through the next link's value, created in forward, reverse or shuffled order, held by the simulator, by the head key or by a weak map, then cut loose); collections are injected at seeded allocation points (first or second allocation point inside the operation); swarm: per-run operation weights and injection rate; non-trivial = an injected collection fired or at least one node was freed; distinct = distinct (history length, number of injection points, hash of executed-operation log and heap counts after each collection)",
+    rule: "one run = one seeded history of 6..40 (quick) / 6..120, occasionally 500..5000 (thorough) operations over boa_gc (alloc with edges, new_cyclic, link/unlink, clone/drop/load handle, weak and ephemeron held by the simulator or stored in a node, weak map new/insert/remove/get/drop, upgrade, read, allocation inside a mutable borrow, finalizer modes incl. resurrection in 1 run of 12, explicit collect) one history in five is a small universe (3 handle slots, 3..8 operations, a collection injected into nearly every allocating operation); of the others one in three starts with a structured motif (a chain of 2..7 ephemerons or weak-map entries whose keys are reachable only through the next link's value, created in forward, reverse or shuffled order, held by the simulator, by the head key or by a weak map, then cut loose); collections are injected at seeded allocation points (first or second allocation point inside the operation); swarm: per-run operation weights and injection rate; non-trivial = an injected collection fired or at least one node was freed; distinct = distinct (history length, number of injection points, hash of executed-operation log and heap counts after each collection)",
     real: &["boa_gc: allocator, collector, Gc, GcRefCell, WeakGc, Ephemeron, WeakMap, derive(Trace)"],
     stub: &["payload type Node (canary, drop and finalize counters)", "collection trigger decision (hook H1)"],
     assumptions: &[
